@@ -54,6 +54,14 @@ def c02(R):
         if out.shape != (N,) or not close(out, Qm.max(1)): R.fail("c02.sweep_is_bellman_backup", "sweep != max_a sum_e p (r + gamma V[idx(next)]) for event weights that do not sum to one", inp, out, Qm.max(1))
         s.values = jnp.array(V); pol = np.asarray(s._extract_policy())
         if not all(abs(Qm[i, int(pol[i, 0])] - Qm[i].max()) <= 1e-9 * max(1, abs(Qm[i].max())) for i in range(N)): R.fail("c02.policy_greedy", "extracted policy does not attain the maximum of sum_e p (r + gamma V) (weights not summing to one)", inp, pol[:, 0], Qm.argmax(1))
+    # real-valued random events with integer actions (the event space and the action space have different dtypes)
+    for t in range(2):
+        N, A, E = int(rng.integers(3, 8)), 2, 3; ns, r, p = rand_mdp(rng, N, A, E); g = 0.9; V = rng.normal(0, 4, N)
+        for cls_, kw_ in ((VI, {}), (PVI, dict(period=2))):
+            prob = Tab(ns, r, p, real_events=True); s = cls_(prob, gamma=g, epsilon=1e-6, verbose=0, max_batch_size=4, **kw_)
+            inp = desc(N, A, E, gamma=g, max_batch_size=4, solver=cls_.__name__, note="events are the real levels 0.6, 1.6, 2.6; actions are integers", V=V, **tables(ns, r, p)); R.case((N, A, E, "real_events", cls_.__name__, t), {k: inp[k] for k in ("N", "solver", "note")})
+            out = np.asarray(s._update_values(s.batched_states, prob.action_space, prob.random_event_space, s.gamma, jnp.array(V))); Qm = Qf(ns, r, p, g, V)
+            if out.shape != (N,) or not close(out, Qm.max(1)): R.fail("c02.sweep_is_bellman_backup", "sweep != max_a sum_e p (r + gamma V[idx(next)]) for real-valued events", inp, out, Qm.max(1))
     # more states than the DEFAULT batch size (1024) and not a multiple of it, default options throughout: tables from the problem's own functions
     from mdpax.problems import Forest as _Forest
     fp = _Forest(S=1100, r1=40.0, p=0.1); g = 0.95
@@ -410,6 +418,13 @@ def c07(R):
                 d = os.path.join(base, f"p{P}_{back}"); s3 = mk(checkpoint_dir=d, checkpoint_frequency=1, max_checkpoints=2, enable_async_checkpointing=False); s3.solve(k)
                 r3 = PVI.restore(d, new_checkpoint_dir=d + "_r"); st3 = r3.solve(400)
                 if int(st3.info.iteration) != nstar or not close(st3.values, Vstar, 1e-9): R.fail("c07.stop_rule_after_restore", "a solver restored at iteration k and continued stops at another iteration than the documented first n >= period with the measure below epsilon", inp, int(st3.info.iteration), nstar)
+        # ... and taken over with load_checkpoint() by a solver that was constructed with ANOTHER period (it adopts the saved period)
+        for g in (0.95, 1.0):
+            mk4 = lambda **kw: PVI(Forest(S=6), period=4, gamma=g, epsilon=1e-5, verbose=0, clear_value_history_on_convergence=False, **kw)
+            nstar = int(mk4().solve(400).info.iteration); d = os.path.join(base, f"other_period_{g}"); w = mk4(checkpoint_dir=d, checkpoint_frequency=1, max_checkpoints=2, enable_async_checkpointing=False); w.solve(min(6, nstar - 1))
+            inp = dict(problem="Forest(S=6)", writer_period=4, reader_period=2, gamma=g, epsilon=1e-5, documented_stop=nstar); R.case(("load_other_period", g), inp)
+            rd = PVI(Forest(S=6), period=2, gamma=g, epsilon=1e-5, verbose=0, clear_value_history_on_convergence=False); rd.load_checkpoint(d); st = rd.solve(400)
+            if int(st.info.iteration) != nstar: R.fail("c07.stop_rule_after_restore", "a solver that loaded a checkpoint written with another period stops at another iteration than the documented one for the saved period", inp, int(st.info.iteration), nstar)
     finally:
         shutil.rmtree(base, ignore_errors=True)
     # periodic chain with period 2 (plain VI oscillates): deterministic cycle of length 2 with different rewards
